@@ -91,8 +91,36 @@ static void check_frame(const uint8_t *frame, size_t flen)
 	free(blk);
 }
 
-/* ------------------------------------------------------------------ mpt_array_push */
 static MPT_STRUCT(encode_array) arr = MPT_ENCODE_ARRAY_INIT;
+static void arr_line(long ret);
+/* ------------------------------------------------------------------ allocation failure injection
+ * (linked with -Wl,--wrap=malloc: every malloc of the library and of this driver comes through here;
+ * only allocations made while `alloc_counting` is set are counted, the `alloc_fail`-th one is refused) */
+static int alloc_counting; static long alloc_count, alloc_fail;
+extern void *__real_malloc(size_t);
+void *__wrap_malloc(size_t n)
+{
+	if (alloc_counting && ++alloc_count == alloc_fail) { errno = ENOMEM; return 0; }
+	return __real_malloc(n);
+}
+/* ------------------------------------------------------------------ mpt_array_push */
+static uint8_t *apending; static size_t aplen;
+static void apush_data(const uint8_t *dat, size_t dlen, long fail)
+{
+	alloc_count = 0; alloc_fail = fail; alloc_counting = fail > 0;
+	alarm(10);
+	ssize_t n = mpt_array_push(&arr, dlen, dat);
+	alarm(0);
+	alloc_counting = 0;
+	size_t took = n > 0 ? (size_t) n : 0;
+	if (took > dlen) took = dlen;
+	uint8_t *rest = 0;
+	if (dlen - took) { rest = malloc(dlen - took); memcpy(rest, dat + took, dlen - took); }
+	if (n == MPT_ERROR(BadEncoding)) { free(rest); rest = 0; took = dlen; }   /* refused text is not pushed again */
+	free(apending); apending = rest; aplen = dlen - took;
+	arr_line(n);
+	printf(" taken=%zd\n", n > 0 ? n : 0);
+}
 static void arr_line(long ret)
 {
 	MPT_STRUCT(buffer) *b = arr._d._buf;
@@ -290,22 +318,41 @@ int main(void)
 				memset(&arr, 0, sizeof(arr));
 				arr._enc = enc = mpt_message_encoder(code);
 				dec = mpt_message_decoder(code);
+				free(apending); apending = 0; aplen = 0;
 				frame_start = last_start = 0; have_frame = 0;
 				puts("R ok ret=0 | C - | I used=0 scratch=0 cap=0");
 			}
 			else if (!arr._enc) puts("bad-op");
 			else if (!strcmp(op, "push") && drv_nw == 3) {
 				if (drv_parse_data(drv_w[2], &dat, &dlen, &isnull) || isnull || !dlen) { puts("bad-op"); free(dat); continue; }
-				size_t before = arr._state.done + arr._state.scratch;
-				(void) before;
-				alarm(10);
-				ssize_t n = mpt_array_push(&arr, dlen, dat);
-				alarm(0);
+				apush_data(dat, dlen, 0);
 				free(dat);
+			}
+			else if (!strcmp(op, "more") && drv_nw == 2) {
+				if (!aplen) { puts("R idle | C - | I -"); continue; }
+				dlen = aplen; dat = malloc(dlen); memcpy(dat, apending, dlen);
+				apush_data(dat, dlen, 0);
+				free(dat);
+			}
+			else if (!strcmp(op, "failpush") && drv_nw == 4) {
+				if (drv_parse_nat(drv_w[2], &a) || !a || drv_parse_data(drv_w[3], &dat, &dlen, &isnull) || isnull || !dlen) { puts("bad-op"); free(dat); continue; }
+				apush_data(dat, dlen, (long) a);
+				free(dat);
+			}
+			else if (!strcmp(op, "failterm") && drv_nw == 3) {
+				if (drv_parse_nat(drv_w[2], &a) || !a) { puts("bad-op"); continue; }
+				if (aplen) { puts("R pending | C - | I -"); continue; }
+				alloc_count = 0; alloc_fail = (long) a; alloc_counting = 1;
+				alarm(10);
+				ssize_t n = mpt_array_push(&arr, 0, 0);
+				alarm(0);
+				alloc_counting = 0;
+				if (n >= 0) { last_start = frame_start; frame_start = arr._state.done; have_frame = 1; }
 				arr_line(n);
-				printf(" taken=%zd\n", n > 0 ? n : 0);
+				printf(" taken=0\n");
 			}
 			else if (!strcmp(op, "term") && drv_nw == 2) {
+				if (aplen) { puts("R pending | C - | I -"); continue; }
 				alarm(10);
 				ssize_t n = mpt_array_push(&arr, 0, 0);
 				alarm(0);
